@@ -27,7 +27,8 @@ def _tmp():
 
 def _cli(args, timeout=60, env=None):
     e = dict(os.environ)
-    e["PYTHONPATH"] = "/repo"
+    import gaftools
+    e["PYTHONPATH"] = os.path.dirname(os.path.dirname(os.path.abspath(gaftools.__file__)))  # the tree under test
     if env:
         e.update(env)
     p = subprocess.run([PY, "-m", "gaftools"] + args, capture_output=True, text=True, timeout=timeout, env=e)
